@@ -60,6 +60,12 @@ pub proof fn lemma_pow10_19() ensures pow10(19) == 10_000_000_000_000_000_000int
     lemma_spow_is_pow(10, 19);
 }
 
+pub proof fn lemma_pow10_9() ensures pow10(9) == 1_000_000_000int, pow10(8) == 100_000_000int
+{
+    assert(spow(10, 9) == 1_000_000_000int) by (compute);
+    lemma_spow_is_pow(10, 9);
+    lemma_pow10_succ(8);
+}
 /// for 0 <= n < 20: vstd pow and pow10 agree and the value fits u64
 pub proof fn lemma_pow10_small(n: int)
     requires 0 <= n < 20
